@@ -597,7 +597,7 @@ async fn scenario(w: &mut World, rng: &mut Rng, acc: &mut Acc) {
 }
 
 pub fn run(args: Args) {
-    let scenarios: u64 = args.tier.pick(1200, 20_000);
+    let scenarios: u64 = args.tier.pick(1200, 12_000);
     let mut run = Run::new(
         args.clone(),
         "exploration",
